@@ -34,7 +34,7 @@ PROP_MODULES = {
     "C09": [("C09", r".*"), ("CodeTies", r"swap_tie|lex_tie|lex_fun_tie|degCompare_tie|wdeglex_tie|wdegrevlex_tie|deglex_tie|degrevlex_tie")],
     "C19": [("C19", r".*"), ("CodeTies", r"boundSqrt_tie|boundLog2_tie|pow_tie|gcd_tie"), ("CodeTies2", r"fpp_")],
     "C03": [("C03", r".*"), ("C01", r"define_lawful|define_any_lawful|define_elements|elements_ext|descOK"), ("C01Prime", r"multGenerator|isGenerator"), ("GenTies", r"DefineConds|ffDefineCases"), ("CodeTies2", r"fpp_")],
-    "C15": [("C15", r".*"), ("C15Full", r".*"), ("C15FullDefine", r".*_define$|.*fieldRoundTripB$|C15_full_bounded_partial$"), ("GenTies", r"Pattern|Regex|XOrY|regex|VarName")],
+    "C15": [("C15", r".*"), ("C15Full", r".*"), ("C15FullDefine", r".*_define$|.*fieldRoundTripB$|C15_full_bounded(_partial)?$"), ("GenTies", r"Pattern|Regex|XOrY|regex|VarName")],
     "C16": [("C16", r".*"), ("C16Static", r".*")],
     "C17": [("C17", r".*"), ("C17Names", r".*"), ("GenTies", r"kindNames"), ("C15", r"parse_total")],
     "C18": [("C18", r".*"), ("C01Prime", r"lookup|computeTables|estimateMemory"), ("GenTies", r"MaxMem|EstimateMemory"),
@@ -129,7 +129,7 @@ def proof_side(pid, res, tier):
         extra = set(ax) - ALLOWED_AXIOMS
         # the assembly corollaries "for every field Define returns over the real database" (Props/C01.lean)
         # import C04's table sweeps and inherit their native_decide axioms (DESIGN.md §2); nothing else may
-        if pid in NATIVE_OK or n.startswith("Algobra.C01.") or n.startswith("Algobra.C04Full.") or n.endswith("_define") or n.endswith("fieldRoundTripB") or n.endswith("C15_full_bounded_partial"):
+        if pid in NATIVE_OK or n.startswith("Algobra.C01.") or n.startswith("Algobra.C04Full.") or n.endswith("_define") or n.endswith("fieldRoundTripB") or n.endswith("C15_full_bounded_partial") or n.endswith("C15_full_bounded"):
             if any("._native.native_decide.ax_" in a for a in ax):
                 info.setdefault("native_dependent", []).append(n)
             extra -= NATIVE_AXIOMS
